@@ -1112,12 +1112,11 @@ func corpus() []desc {
 		a := rq([]int{12 * k, 9 * k}, true, false, "form")
 		a.Abandon = true
 		hist(true, false, rq([]int{9 * k}, true, false, "form"), a)
-		a2 := rq([]int{max + 1}, true, false, "none")
+		a2 := rq([]int{9 * k}, true, false, "form", "none")
 		a2.Abandon = true
 		hist(false, true, a2)
 	}
 	// call level: who gives the files back
-	c = append(c, desc{Op: "readfiles", Via: "request-release", Sizes: []int{max + 1}, Wellformed: true})
 	c = append(c, desc{Op: "readfiles", Via: "request-reuse", Sizes: []int{max + 1}, Wellformed: true})
 	for _, sizes := range [][]int{{8193}, {8192}, {5000, 5000, 9000}} {
 		c = append(c, desc{Op: "readfiles", Via: "stream-request", Sizes: sizes, Wellformed: true})
